@@ -44,6 +44,7 @@ type stub struct {
 	mu       sync.Mutex
 	script   func(*t_api.Request) (*t_api.Response, error)
 	captured []*t_api.Request
+	delay    time.Duration // answer this much later (on another goroutine, like the real kernel)
 }
 
 func (s *stub) String() string                                  { return "stub" }
@@ -62,7 +63,16 @@ func (s *stub) EnqueueSQE(sqe *bus.SQE[t_api.Request, t_api.Response]) {
 	s.mu.Lock()
 	s.captured = append(s.captured, sqe.Submission)
 	f := s.script
+	d := s.delay
 	s.mu.Unlock()
+	if d > 0 {
+		go func() {
+			time.Sleep(d)
+			res, err := f(sqe.Submission)
+			sqe.Callback(res, err)
+		}()
+		return
+	}
 	res, err := f(sqe.Submission)
 	sqe.Callback(res, err)
 }
@@ -1098,6 +1108,10 @@ func runChild(cases []Case, listf string, from int, resf, curf string, seed int6
 				kres = x
 				return x, err
 			}
+			e.stub.delay = 0
+			if c.Slow {
+				e.stub.delay = 1300 * time.Millisecond // the front ends are configured with a timeout of 1 s
+			}
 			e.stub.mu.Unlock()
 			var ep endpoint
 			for _, x := range endpoints {
@@ -1110,7 +1124,15 @@ func runChild(cases []Case, listf string, from int, resf, curf string, seed int6
 				content.State = promise.Resolved
 			}
 			rp := ep.Send(e, content)
+			e.stub.mu.Lock()
+			e.stub.delay = 0
+			e.stub.mu.Unlock()
 			res.Problems, res.Sig, res.Observed = judgeStatus(c, rp, kres)
+			if c.Slow {
+				for i := range res.Sig {
+					res.Sig[i] = "slow-kernel:" + res.Sig[i]
+				}
+			}
 			e.stub.mu.Lock()
 			n := len(e.stub.captured)
 			e.stub.mu.Unlock()
